@@ -5,7 +5,7 @@
 EXTENDS Integers, Sequences, FiniteSets, TLC
 P == INSTANCE PipeProps
 
-CONSTANTS Cfgs, QStep
+CONSTANTS Cfgs, QStep, KeepSched
 VARIABLES cfg, inb, outb, closed, cp, cl, env, obs, sched
 vars == <<cfg, inb, outb, closed, cp, cl, env, obs, sched>>
 View == <<cfg, inb, outb, closed, cp, cl, env, obs>>
@@ -40,7 +40,7 @@ Lib == ((\E i \in I : JRecvBuf(i) \/ JRecvHand(i) \/ JRecvClosed(i) \/ JSendBuf(
        /\ UNCHANGED <<cfg, sched>>
 
 EnvOK == ~QStep \/ ~ENABLED Lib
-Log(c) == sched' = Append(sched, c)
+Log(c) == sched' = IF KeepSched THEN Append(sched, c) ELSE sched     \* the history variable is switched off for liveness checking
 EnvSend(i) == EnvOK /\ ~env.spend[i] /\ ~env.closedIn[i] /\ env.sidx[i] <= Len(cfg.inputs[i]) /\ env' = [env EXCEPT !.spend[i] = TRUE]
               /\ Log(Cmd("send", i - 1, "", 0)) /\ UNCHANGED <<cfg, inb, outb, closed, cp, cl, obs>>
 EnvClose(i) == EnvOK /\ ~env.spend[i] /\ ~env.closedIn[i] /\ env' = [env EXCEPT !.closedIn[i] = TRUE] /\ closed' = [closed EXCEPT !.in[i] = TRUE]
